@@ -68,6 +68,24 @@ def run(prop, tier, seed):
                     if len(samples) < 3 and len(c["rows"]) > 1:
                         samples.append({"text": c["text"], "lang": c["lang"], "x": c.get("x"), "rows": [[v(y) for y in r] for r in c["rows"]][:6],
                                         "nodes": len(c["g"]["nodes"]), "edges": len(c["g"]["edges"])})
+    # C09 only: constructs outside the oracle's grammar (OPTIONAL MATCH + WHERE, WITH, comma patterns, UNWIND) must at least be answered
+    # identically under every optimizer configuration (Metamorphic.tla, kind "agree")
+    if prop == "C09":
+        import C11
+        mp = os.path.join(wd, "agree.ndjson")
+        V.gv(["qmeta", "--seed", seed + 9, "--graphs", 40 if tier == "quick" else 600, "--random", 0, "--agree", "--out", mp], timeout=3000)
+        ac = [c for c in V.read_ndjson(mp) if c["kind"] == "agree"]
+        for b in range(0, len(ac), 3000):
+            bp = os.path.join(wd, f"agree-{b}.ndjson")
+            V.write_ndjson(bp, ac[b:b + 3000])
+            mm, n = C11.check(bp, f"C09-agree-{b}")
+            total += n
+            answered += n
+            for i in mm[:4]:
+                c = ac[b + i - 1]
+                rep.violation(f"{c['lang']}: optimizer configurations disagree on: {c['text']} — row counts per configuration "
+                              f"[none, all-off, filter-pushdown, join-reorder, projection-pushdown, all-on] = {[len(x) for x in c['variants']]}", {"agree_case": c})
+        rep.add(agree_cases=len(ac))
     # binding self-test: a corrupted row must be reported as a mismatch
     cases = V.read_ndjson(os.path.join(wd, f"cases-{profiles[0][0]}.ndjson"))
     pick = next((i for i, c in enumerate(cases) if not c["err"] and c["rows"] and not c["q"]["order"] and c["q"]["limit"] < 0 and c["q"]["skip"] == 0), None)
@@ -94,6 +112,10 @@ def run(prop, tier, seed):
 
 def replay(path):
     obj = json.load(open(path))
+    if "agree_case" in obj["replay"]:
+        print(json.dumps(obj["replay"]["agree_case"])[:2500])
+        print(f"VIOLATION property={obj['property']} replay={path}")
+        return 1
     c = obj["replay"]["case"]
     wd = V.workdir("replay-q")
     sp = os.path.join(wd, "case.ndjson")
